@@ -206,6 +206,17 @@ def system(R, rng, tier):
             meta.append({"first": first, "n": len(lines), "placed": {}, "tids": tids,
                          "outside": {1: (placed_text, kind, None if ids is None else [a if x == "A" else b for x in ids])}})
     outs, mism, broken = scancorr.run_cases(progs, R, "c02s")
+    # the same programs with CRLF and with lone-CR line ends: the same findings are reported and withheld on the same lines
+    for p_, o_ in list(zip(progs, outs))[:: (7 if tier == "quick" else 1)]:
+        for nl_name, nl in (("CRLF", "\r\n"), ("CR", "\r")):
+            o2 = impl.scan_bytes(p_["src"].replace("\n", nl).encode())
+            R.count("line-ends:" + nl_name)
+            a = sorted((r["test_id"], r["lineno"]) for r in o_["results"] if r["test_id"] != "B613")
+            b = sorted((r["test_id"], r["lineno"]) for r in o2["results"] if r["test_id"] != "B613")
+            if a != b or (o_["nosec"], o_["skipped_tests"]) != (o2["nosec"], o2["skipped_tests"]):
+                R.violations.append({"what": "with %s line ends other findings are reported or withheld than with LF" % nl_name, "input": p_["src"],
+                                     "observed": {"lf": a, nl_name: b, "counters_lf": (o_["nosec"], o_["skipped_tests"]), "counters": (o2["nosec"], o2["skipped_tests"])},
+                                     "signature": None})
     R.broken.extend(broken)
     for i, tail in mism[:30]:
         R.broken.append({"what": "correspondence: model scan and bandit differ on a nosec placement program", "input": progs[i]["src"],
